@@ -12,6 +12,12 @@ Definition pfuel : nat := 6000.
 
 Definition run_model (fl : list bool) (bytes : list N) : presult := parse rules classes acts preds pfuel fl bytes.
 
+(* with registered custom dice given as a table offset -> matched byte length *)
+Fixpoint assoc_N (o : N) (l : list (N * N)) : option N :=
+  match l with [] => None | (k, v) :: r => if k =? o then Some v else assoc_N o r end.
+Definition run_model_custom (tbl : list (N * N)) (fl : list bool) (bytes : list N) : presult :=
+  parse_custom (fun o => assoc_N o tbl) rules classes acts preds pfuel fl bytes.
+
 Fixpoint subset_N (a b : list N) : bool :=
   match a with [] => true | x :: r => if mem_N x b then subset_N r b else false end.
 
